@@ -31,6 +31,7 @@ import MutagenModel.Model.Container.Iff
 import MutagenModel.Model.Container.DsfFull
 import MutagenModel.Model.Container.Asf
 import MutagenModel.Model.Container.Mp4LoadM
+import MutagenModel.Model.Container.Mp4Chapters
 import MutagenModel.Model.Container.OggInjectLoadM
 import MutagenModel.Model.Info.Aac
 import MutagenModel.Model.Info.Ac3
@@ -215,7 +216,7 @@ def loadFlac (f : Bytes) : Except PyErr FlacL.Loaded := FlacL.load f
 /-- `ASF(fileobj)`: the header objects (tags from five of them, info from two) -/
 def loadAsf (f : Bytes) := Asf.parseFull f
 /-- `MP4(fileobj)`: atoms, `MP4Info.load`, `MP4Tags.load` with their handlers (without chapters) -/
-def loadMp4 (f : Bytes) : Except PyErr Mp4C.Loaded := Mp4C.loadPure f
+def loadMp4 (f : Bytes) : Except PyErr Mp4C.LoadedFull := Mp4C.loadFullPure f
 /-- `AAC(fileobj)` -/
 def loadAac (f : Bytes) := Info.Aac.parse f
 /-- `AC3(fileobj)` -/
